@@ -395,7 +395,7 @@ extern "C" {
       bool first = true;
       for (int64_t i = 0;  i < p->numpartitions();  i++) {
         std::string part;
-        if (p->partition(i)->length() == 0) continue;      // (an empty partition may have lost its list type)
+        if (p->partition(i)->length() == 0) continue;      // nothing to add; (before 81490fd such a partition could even have the items' type)
         walk(p->partition(i).get(), part);      // "[a,b,c]"
         if (part.empty()  ||  part[0] != '[') {
           throw WalkError("walker: a partition is not an array: " + part.substr(0, 60));
